@@ -63,7 +63,17 @@ RULE += (
     "to_joint_gaussian itself rounds to 8 decimals: the `tiny` stream (variances 2^-30..2^-40, coefficient 2^-12 on variance "
     "2^-20) requires pgmpy == the as-coded model (exact joint rounded to 8 decimals) entrywise and diagnoses the known "
     "finding joint-gaussian-rounded-8-decimals exactly when that differs from the exact joint by > 1e-9 of the entry's unit.  "
-    "I backends: not applicable (these classes are numpy only).  J variants: inplace True/False and operators * / for "
+    "N equal-not-identical: CPD variable/evidence names, frame columns, marginalize/reduce/get_cpds arguments are rebuilt "
+    "objects (joined strings, re-parsed ints incl. a `bigint` name style above the small-int cache, rebuilt tuples).  O "
+    "containers: evidence_mean as list/ndarray/tuple, add_cpds(*generator), canonical marginalize/reduce with list/tuple/"
+    "object ndarray; GaussianDistribution.marginalize/reduce document and enforce `list`; a tuple as LinearGaussianCPD "
+    "evidence is rejected by the code as written (TypeError) and is not generated.  P sizes: 9/10-node networks (12 nodes cost a minute per case in exact rationals) with a "
+    "path through all nodes, fit row counts 8/9/16/17/33.  Q not applicable (no probability tables).  R combinations "
+    "arise by independent random choice (index kind x int64 x extra column x zero rows x distribution=, inplace x "
+    "operator, several add_cpds calls x repeated variables x replacement).  add_cpds is driven by a generated CALL PLAN: "
+    "one or several calls, 1..3 CPDs per variable, superseded ones anywhere before the final one incl. within the same "
+    "call for a variable new to the model; cpds order, len, get_cpds identity, joint and predict are compared "
+    "(C20_add_cpds_last_wins).  I backends: not applicable (these classes are numpy only).  J variants: inplace True/False and operators * / for "
     "Gaussian and canonical forms, predict(distribution='joint'), fit(method='mle'), LinearGaussianCPD.fit(MLE|MAP), "
     "normalize, get_random, simulate (replayed with the same numpy generator).  K rejections: add_cpds(good, foreign, good) "
     "(state = model after the good prefix), reduce/marginalize with a LATER unknown variable in place (object unchanged), "
@@ -114,6 +124,8 @@ def names_for(n, style, nameseed):
         pool = ["x1", "B", "a", "Z", "m", "c2", "Y", "k", "d", "W", "q", "R"]
     elif style == "int":
         pool = list(range(0, 9))
+    elif style == "bigint":         # ints outside CPython's small-int cache: equal ints are distinct objects
+        pool = [300, 1000, 257, 4096, 999, 70000, 2 ** 40, 512, 1025, 65537, 333, 100000]
     elif style == "int9":           # small ints >= 8: a set of them does not iterate in increasing order
         pool = list(range(0, 14))
     elif style == "substr":         # one name a substring / prefix of another, digit strings, format-ish names
@@ -124,6 +136,19 @@ def names_for(n, style, nameseed):
         pool = ["x", 0, "b", 7, "Zz", 3, "a", 11, "y", 5, "", 8]
     rng.shuffle(pool)
     return pool[:n]
+
+
+def fresh(name):
+    """an EQUAL but not IDENTICAL name object (class N): queries never hand back the very objects stored in the model"""
+    if isinstance(name, str):
+        return "".join(list(name)) if len(name) > 1 else name
+    if isinstance(name, bool):
+        return name
+    if isinstance(name, int):
+        return int(str(name))
+    if isinstance(name, tuple):
+        return tuple(fresh(x) for x in list(name))
+    return name
 
 
 def close(a, b, tol):
@@ -159,7 +184,7 @@ def tofl(M):
 def gen_lgbn(rng, nmax=6, style=None, mag=False):
     n = rng.randint(1, nmax)
     nodes, edges = common.rand_dag(rng, n, p=rng.choice([0.3, 0.5, 0.7, 0.9]))
-    style = style or rng.choice(["str", "int", "mixed", "substr"])
+    style = style or rng.choice(["str", "int", "mixed", "substr", "bigint"])
     zero_ok = rng.random() < 0.35             # exact zero coefficients / intercepts ('x or default' shortcuts)
     # magnitudes: intercepts up to 2^20, variances up to 2^30 (exact in floats; the model is exact anyway)
     sa = Fraction(2) ** rng.choice([10, 20]) if mag else Fraction(1)
@@ -176,19 +201,47 @@ def gen_lgbn(rng, nmax=6, style=None, mag=False):
         cpds.append([v, [jf(x) for x in mean], jf(var), pa])
     add_order = list(range(n))
     rng.shuffle(add_order)
-    dummy = rng.randrange(n) if rng.random() < 0.3 else None
+    dummy = None
     c = {"kind": "lgbn", "n": n, "nodes": nodes, "edges": [list(e) for e in edges], "style": style,
          "nameseed": rng.randint(0, 10**9), "cpds": cpds, "add_order": add_order, "dummy": dummy,
-         "dseed": rng.randint(0, 10**9)}
+         "dseed": rng.randint(0, 10**9), "add_calls": gen_add_calls(rng, cpds, add_order)}
     if mag:
         c["mag"] = [int(sa), int(sb)]
     return c
 
 
+def gen_add_calls(rng, cpds, add_order):
+    """how the CPDs reach the model: a sequence of add_cpds(*args) calls.  Items are variable numbers (the final CPD of
+    the case) or explicit superseded CPDs [v, mean, var, evidence] for the same variable placed somewhere BEFORE the
+    final one -- in the same call (variable new to the model, or already present) or in an earlier call; 1..3 CPDs per
+    variable, interleaved with the others.  The last CPD added for a variable must win."""
+    by = {c[0]: c for c in cpds}
+    items = list(add_order)
+    for v in add_order:
+        for _ in range(rng.choice([0, 0, 0, 1, 1, 2])):
+            pos = rng.randint(0, items.index(v))
+            ev = list(by[v][3])
+            rng.shuffle(ev)
+            old = [v, [jf(dy(rng, -3, 3))] + [jf(Fraction(rng.choice([-6, -3, 1, 2, 5, 7]), 4)) for _ in ev],
+                   jf(rng.choice([Fraction(1, 2), Fraction(3), Fraction(5, 4), Fraction(9)])), ev]
+            items.insert(pos, old)
+    mode = rng.random()
+    if mode < 0.35:
+        return [items]
+    if mode < 0.55:
+        return [[x] for x in items]
+    calls, i = [], 0
+    while i < len(items):
+        k = rng.randint(1, max(1, len(items) - i))
+        calls.append(items[i:i + k])
+        i += k
+    return calls
+
+
 def gen_big(rng):
     """9..10 variables with small-int names >= 8, one long directed path (depth n-1) plus sparse extra edges;
     a sample of missing subsets of sizes 1..6 instead of all of them"""
-    n = rng.randint(9, 10)
+    n = rng.choice([9, 9, 9, 10])                     # exact rational inverses grow fast: 12 nodes cost ~1 min per case
     order = list(range(n))
     rng.shuffle(order)
     edges = [[order[i], order[i + 1]] for i in range(n - 1)]
@@ -209,7 +262,7 @@ def gen_big(rng):
     add_order = list(range(n))
     rng.shuffle(add_order)
     subsets = []
-    for _ in range(7):
+    for _ in range(7 if n == 9 else 3):
         subsets.append(sorted(rng.sample(range(n), rng.randint(1, 6))))
     return {"kind": "lgbn", "n": n, "nodes": nodes, "edges": edges, "style": "int9", "nameseed": rng.randint(0, 10**9),
             "cpds": cpds, "add_order": add_order, "dummy": None, "dseed": rng.randint(0, 10**9), "subsets": subsets}
@@ -220,12 +273,14 @@ def gen_fit(rng):
     nodes, edges = common.rand_dag(rng, n, p=rng.choice([0.3, 0.6, 0.9]))
     maxp = max([sum(1 for (u, w) in edges if w == v) for v in range(n)] + [0])
     N = rng.randint(maxp + 2, maxp + 9)
+    if rng.random() < 0.2:
+        N = max(maxp + 2, rng.choice([8, 9, 16, 17, 33]))     # around batch sizes
     cols = list(range(n))
     rng.shuffle(cols)
     intdata = rng.random() < 0.25                       # integer-valued data in an int64 frame
     rows = [[jf(dy(rng, -4, 4, 1 if intdata else 4)) for _ in range(n)] for _ in range(N)]
     return {"kind": "fit", "n": n, "nodes": nodes, "edges": [list(e) for e in edges],
-            "style": rng.choice(["str", "int", "substr"]), "nameseed": rng.randint(0, 10**9), "cols": cols, "rows": rows,
+            "style": rng.choice(["str", "int", "substr", "bigint"]), "nameseed": rng.randint(0, 10**9), "cols": cols, "rows": rows,
             "extra": rng.random() < 0.4, "intdata": intdata}
 
 
@@ -300,7 +355,7 @@ def gen_gauss(rng):
     # second distribution: `shared` variables of the first (random positions) + fresh ones
     v2 = rng.sample(range(n), shared) + list(range(n, n + n2 - shared))
     rng.shuffle(v2)
-    return {"kind": "gauss", "n": n, "style": rng.choice(["str", "int", "mixed", "substr", "tuple"]), "nameseed": rng.randint(0, 10**9),
+    return {"kind": "gauss", "n": n, "style": rng.choice(["str", "int", "mixed", "substr", "tuple", "bigint"]), "nameseed": rng.randint(0, 10**9),
             "mean": [jf(dy(rng, -3, 3)) for _ in range(n)], "cov": [[jf(x) for x in r] for r in rand_pd(rng, n)],
             "v2": v2, "mean2": [jf(dy(rng, -3, 3)) for _ in range(len(v2))],
             "cov2": [[jf(x) for x in r] for r in rand_pd(rng, len(v2))], "qseed": rng.randint(0, 10**9)}
@@ -427,6 +482,18 @@ def shrink(case):
                 cp.append([v, mean, var, ev])
             c["cpds"] = cp
             yield c
+    if case["kind"] == "lgbn" and case.get("add_calls"):
+        calls = case["add_calls"]
+        flat = [x for call in calls for x in call]
+        for i, x in enumerate(flat):
+            if isinstance(x, list):                      # drop one superseded CPD (everything in one call)
+                c = dict(case)
+                c["add_calls"] = [flat[:i] + flat[i + 1:]]
+                yield c
+        if len(calls) > 1:
+            c = dict(case)
+            c["add_calls"] = [flat]
+            yield c
     if case["kind"] == "lgbn" and "only" not in case:
         n = case["n"]
         for r in (2, 1, 3):
@@ -465,8 +532,12 @@ def build_lgbn(case):
     m.add_nodes_from([names[v] for v in case["nodes"]])
     m.add_edges_from([(names[u], names[v]) for u, v in case["edges"]])
     objs = {}
+    import numpy as np
     for v, mean, var, ev in case["cpds"]:
-        objs[v] = LinearGaussianCPD(names[v], [float(fr(x)) for x in mean], float(fr(var)), [names[u] for u in ev])
+        fm = [float(fr(x)) for x in mean]
+        fm = (fm, np.array(fm), tuple(fm))[(v + case["nameseed"]) % 3]      # every documented array-like for evidence_mean
+        # evidence / variable names are equal to, not identical with, the node objects of the graph
+        objs[v] = LinearGaussianCPD(fresh(names[v]), fm, float(fr(var)), [fresh(names[u]) for u in ev])
     return m, names, objs
 
 
@@ -475,8 +546,10 @@ def model_cpds(case, add_seq):
     by = {c[0]: c for c in case["cpds"]}
     out = []
     for item in add_seq:
-        if isinstance(item, list):      # an explicit throwaway cpd
-            out.append(item)
+        if isinstance(item, list):      # an explicit superseded cpd (Fractions, or [num, den] pairs from the case)
+            v, mean, var, ev = item
+            out.append([v, [x if isinstance(x, Fraction) else fr(x) for x in mean],
+                        var if isinstance(var, Fraction) else fr(var), list(ev)])
         else:
             v, mean, var, ev = by[item]
             out.append([v, [fr(x) for x in mean], fr(var), list(ev)])
@@ -526,22 +599,39 @@ def run_lgbn(case, drv):
     def closeC(x, y, tol):
         return abs(float(x) - float(y)) <= tol * max(uC, abs(float(y)))
 
-    # ---- add_cpds (shuffled order, optional replacement of a throwaway CPD)
+    # ---- add_cpds: one or several calls, possibly several CPDs for one variable within a call (the last one wins)
+    from pgmpy.factors.continuous import LinearGaussianCPD
+    calls = case.get("add_calls")
+    if calls is None:                                   # older corpus cases
+        calls = ([[[case["dummy"], [jf(9)], jf(9), []]]] if case.get("dummy") is not None else []) \
+            + [[v] for v in case["add_order"]]
     add_seq = []
-    if case["dummy"] is not None:
-        from pgmpy.factors.continuous import LinearGaussianCPD
-        d = case["dummy"]
-        m.add_cpds(LinearGaussianCPD(names[d], [9.0], 9.0, []))
-        add_seq.append([d, [Fraction(9)], Fraction(9), []])
+    for ci, call in enumerate(calls):
+        args = []
+        for item in call:
+            if isinstance(item, list):
+                v_, mean_, var_, ev_ = item
+                args.append(LinearGaussianCPD(names[v_], [float(fr(x)) for x in mean_], float(fr(var_)), [names[u] for u in ev_]))
+            else:
+                args.append(objs[item])
+            add_seq.append(item)
+        if ci % 2:
+            m.add_cpds(*(a_ for a_ in args))            # star-expansion of a one-shot iterator
+        else:
+            m.add_cpds(*args)
+    if any(isinstance(x, list) for x in add_seq):
         tags.append("cpd-replaced")
-    for v in case["add_order"]:
-        m.add_cpds(objs[v])
-        add_seq.append(v)
+    if any(len({(x[0] if isinstance(x, list) else x) for x in call}) < len(call) for call in calls):
+        tags.append("add_cpds:same-variable-twice-in-one-call")
     mc = model_cpds(case, add_seq)
     got = [idx[repr(c.variable)] for c in m.cpds]
     exp = [c[0] for c in drv.call("c20_add_cpds", mc)]
-    if got != exp or any(m.cpds[i] is not objs[v] for i, v in enumerate(got)):
-        return bad("impl!=model:add_cpds", {"impl": got, "model": exp})
+    if got != exp or len(m.cpds) != n or any(m.cpds[i] is not objs[v] for i, v in enumerate(got)):
+        return bad("impl!=model:add_cpds", {"impl": got, "model": exp, "calls": [[(x[0] if isinstance(x, list) else x) for x in call]
+                                                                                 for call in calls]})
+    for v in range(n):                                  # C20_add_cpds_last_wins, through the public accessor
+        if m.get_cpds(fresh(names[v])) is not objs[v]:
+            return bad("impl!=model:get_cpds-not-the-last-added", {"variable": v})
     m.check_model()
 
     order_names = list(nx.topological_sort(m))
@@ -594,7 +684,7 @@ def run_lgbn(case, drv):
         nrows = 0 if rng.random() < 0.06 else rng.randint(1, 3)
         extra = rng.random() < 0.4
         intdata = rng.random() < 0.25             # integer-valued observations in an int64 frame
-        colnames = [names[v] for v in obs]
+        colnames = [fresh(names[v]) for v in obs]
         rows = [[dy(rng, -4, 4, 1 if intdata else 4) for _ in obs] for _ in range(nrows)]
         frame_cols = list(colnames)
         frame_rows = [[float(x) for x in r] for r in rows]
@@ -905,7 +995,7 @@ def run_gauss(case, drv):
                 drop.append(n)          # a variable outside the scope is ignored
             d = mk()
             d0 = mk()
-            res = d.marginalize([names[v] for v in drop], inplace=False)
+            res = d.marginalize([fresh(names[v]) for v in drop], inplace=False)
             if d.variables != d0.variables or not np.array_equal(d.mean, d0.mean) or not np.array_equal(d.covariance, d0.covariance):
                 return bad("impl!=spec:marginalize-mutates-original", {"drop": drop})
             d2 = mk()
@@ -927,7 +1017,7 @@ def run_gauss(case, drv):
             rng.shuffle(red)
             vals = [dy(rng, -3, 3) for _ in red]
             d = mk()
-            res = d.reduce([(names[v], float(x)) for v, x in zip(red, vals)], inplace=False)
+            res = d.reduce([(fresh(names[v]), float(x)) for v, x in zip(red, vals)], inplace=False)
             d2 = mk()
             d2.reduce([(names[v], float(x)) for v, x in zip(red, vals)], inplace=True)
             keep = [v for v in vars1 if v not in red]
@@ -995,7 +1085,12 @@ def run_gauss(case, drv):
             Kf = np.asarray(cf.K, dtype=float)
             hf = np.asarray(cf.h, dtype=float).ravel()
             # marginalize
-            cm = cf.marginalize([names[v] for v in sel], inplace=False)
+            margs = [fresh(names[v]) for v in sel]
+            if (r + len(sel) + n) % 3 == 1:
+                margs = tuple(margs)
+            elif (r + len(sel) + n) % 3 == 2 and all(isinstance(x, str) for x in margs):
+                margs = np.array(margs, dtype=object)
+            cm = cf.marginalize(margs, inplace=False)
             Kjj = Kf[np.ix_(J, J)]
             Ks = Kf[np.ix_(I, I)] - Kf[np.ix_(I, J)] @ np.linalg.solve(Kjj, Kf[np.ix_(J, I)])
             hs = hf[I] - Kf[np.ix_(I, J)] @ np.linalg.solve(Kjj, hf[J])
@@ -1032,7 +1127,8 @@ def run_gauss(case, drv):
             # reduce
             vals = [dy(rng, -2, 2) for _ in sel]
             yv = np.array([float(x) for x in vals])
-            cr = cf.reduce([(names[v], float(x)) for v, x in zip(sel, vals)], inplace=False)
+            rargs = [(fresh(names[v]), float(x)) for v, x in zip(sel, vals)]
+            cr = cf.reduce(tuple(rargs) if (r + n) % 2 else rargs, inplace=False)
             Kr = Kf[np.ix_(I, I)]
             hr = hf[I] - Kf[np.ix_(I, J)] @ yv
             gr = cf.g + float(hf[J] @ yv) - 0.5 * float(yv @ Kjj @ yv)
@@ -1687,7 +1783,17 @@ def gen_session(rng):
     cur_edges = [list(e) for e in edges]
     steps = []
     for _ in range(rng.randint(4, 7)):
-        op = rng.choice(["replace", "replace", "remove+add", "fit", "fit", "remove_edge", "add_edge", "joint", "predict"])
+        op = rng.choice(["replace", "multi", "multi", "remove+add", "fit", "fit", "remove_edge", "add_edge", "joint", "predict"])
+        if op == "multi":
+            # ONE add_cpds call with 2..3 CPDs for variable v (optionally removed first, so that it is new to the model)
+            # interleaved with a CPD for another variable
+            v = rng.randrange(n)
+            w = rng.choice([u for u in range(n) if u != v])
+            pa_v = [u for (u, x) in cur_edges if x == v]
+            items = [_rand_cpd(rng, v, pa_v) for _ in range(rng.randint(2, 3))]
+            items.insert(rng.randint(0, len(items)), _rand_cpd(rng, w, [u for (u, x) in cur_edges if x == w]))
+            steps.append({"op": "multi", "items": items, "remove_first": rng.random() < 0.5, "var": v})
+            continue
         if op in ("replace", "remove+add"):
             v = rng.randrange(n)
             steps.append({"op": op, "cpd": _rand_cpd(rng, v, [u for (u, w) in cur_edges if w == v])})
@@ -1759,6 +1865,14 @@ def run_session(case, drv):
         if sorted((idx[repr(a)], idx[repr(b)]) for a, b in m.edges()) != sorted(map(tuple, edges)):
             return bad("impl!=spec:session-edges", {"where": where})
         mc = [cur[v] for v in sorted(cur)]
+        if len(m.cpds) != n or sorted(idx[repr(c.variable)] for c in m.cpds) != list(range(n)):
+            return bad("impl!=model:session-cpds", {"where": where, "cpds": [idx[repr(c.variable)] for c in m.cpds]})
+        for v in range(n):
+            c = m.get_cpds(fresh(names[v]))
+            if [idx[repr(u)] for u in c.evidence] != cur[v][3] or not all(
+                    close(a_, b_, 1e-12) for a_, b_ in zip(np.asarray(c.mean, dtype=float).ravel(), cur[v][1])) \
+                    or not close(c.variance, cur[v][2], 1e-12):
+                return bad("impl!=model:session-get_cpds", {"where": where, "variable": v})
         mu, cov = m.to_joint_gaussian()
         st, r = drv.call_e("c20_joint", [True, mc, order])
         if st != "ok":
@@ -1774,7 +1888,7 @@ def run_session(case, drv):
         kf = tuple(obs)
         vals = [[dy(rng, -4, 4) for _ in obs] for _ in range(2)]
         if kf not in pred_frame:
-            pred_frame[kf] = pd.DataFrame([[0.0] * len(obs)] * 2, columns=pd.Index([names[v] for v in obs], dtype=object))
+            pred_frame[kf] = pd.DataFrame([[0.0] * len(obs)] * 2, columns=pd.Index([fresh(names[v]) for v in obs], dtype=object))
         df = pred_frame[kf]
         df.iloc[:, :] = [[float(x) for x in r_] for r_ in vals]
         snap = df.copy(deep=True)
@@ -1799,7 +1913,13 @@ def run_session(case, drv):
         return b
     for i, st_ in enumerate(case["steps"]):
         op = st_["op"]
-        if op in ("replace", "remove+add", "remove_edge", "add_edge"):
+        if op == "multi":
+            if st_["remove_first"]:
+                m.remove_cpds(names[st_["var"]])
+            m.add_cpds(*[mk(c) for c in st_["items"]])
+            for c in st_["items"]:
+                cur[c[0]] = [c[0], fvec(c[1]), fr(c[2]), list(c[3])]
+        elif op in ("replace", "remove+add", "remove_edge", "add_edge"):
             c = st_["cpd"]
             if op == "remove_edge":
                 m.remove_edge(names[st_["edge"][0]], names[st_["edge"][1]])
